@@ -85,6 +85,9 @@ def plant(rng, gen):
         if t.name not in gen.known:
             t.name = rng.choice(anytrees.ROOTS)
     log = []
+    if rng.random() < 0.3:
+        treegen.decorate_like_import(rng, t)
+        log.append("decorated-like-import")
     if rng.random() < 0.5:
         # the usual life of a document: validated first (whatever the verdict), edited afterwards, pruned last
         try:
